@@ -411,7 +411,7 @@ Theorem id_check_unreachable : forall F o ms d v e f,
 Proof.
   intros F o ms d v e f Hrows. apply res_plain_not_mismatch.
   unfold run, run_from. destruct (prelude_gen F o d) as [Hp [_ Hn]].
-  destruct (i_res (snd (run_list F o [] prelude (d, inst0)))) eqn:E; [exact Hp|].
+  destruct (i_res (snd (run_list F o [] prelude (d, inst0)))) eqn:E; [rewrite E; exact Hp|].
   destruct (Hn eq_refl) as [rows [Hm [Hv [Hi _]]]].
   apply run_list_res_plain; [|rewrite E; left; reflexivity].
   apply plan_no_fail. intros m _ Hlt. rewrite Hv, Hi in *. unfold id_check.
